@@ -30,14 +30,17 @@ Clauses(st, ex) ==
              ELSE IF Len(ex[p]) < Len(Got(p)) /\ IsSubseq(ex[p], Got(p)) THEN {<<IF p \in act THEN "Receives:extra" ELSE "Silent", p>>}
              ELSE {<<"Receives:wrong", p>>} : p \in Probes }
      \cup { <<"Quiescent:code", fn>> : fn \in {x \in Fns : (\A p \in act : x \notin Touches(p)) /\ ~S.obs.orig[x]} }
-     \cup { <<"Quiescent:count", fn>> : fn \in {x \in Fns : (\A p \in act : x \notin Touches(p))
-                                                            /\ (S.obs.cnt[x] # 0 \/ S.obs.caps[x] # 0)} }
-     \cup { <<"NoStaleHandlers", q>> : q \in incur \ act }
-     \cup { <<"ActiveInstalled", p>> : p \in act \ incur }
+     \* the next three clauses read ptera's own bookkeeping; they are skipped when this tree no longer exposes it
+     \cup (IF ~S.obs.internals THEN {} ELSE
+           { <<"Quiescent:count", fn>> : fn \in {x \in Fns : (\A p \in act : x \notin Touches(p))
+                                                               /\ (S.obs.cnt[x] # 0 \/ S.obs.caps[x] # 0)} }
+           \cup { <<"NoStaleHandlers", q>> : q \in incur \ act }
+           \cup { <<"ActiveInstalled", p>> : p \in act \ incur })
      \cup (IF ToSet(S.obs.gp) = act THEN {} ELSE {<<"GlobalRegistry", "">>})
 
 \* does the observation coincide with what the mechanism transcription predicts (known deviation) ?
 MechExplains(m2, mr2) ==
+  /\ S.obs.internals
   /\ S.obs.cur.none = (m2.cur = None)
   /\ (m2.cur # None => S.obs.cur.ids = m2.cur)
   /\ \A p \in Probes : Len(S.obs.recv[p]) = mr2[p]
